@@ -166,6 +166,20 @@ func bidx(c *Ctx, rule string, funcs []*ssa.Function, exempt map[string]string) 
 			if matched {
 				continue
 			}
+			// a function-level exemption for the second pass of a two-pass parse: the site lies in a loop that comes
+			// after (is dominated by the header of, without being nested in) an earlier loop of the same function
+			if why, ok := exempt[rule+"|"+fname(f)+"|@second-pass"]; ok && inSecondPassLoop(f, s.Instr.Block()) {
+				c.Notes = append(c.Notes, "exempt "+key+": "+why)
+				continue
+			}
+			if helperContext[fname(f)] {
+				buildCallIndex(c.P)
+				if len(callSiteIndex[f]) == 0 {
+					// a helper that this property analyses only in the context of its callers, and nothing calls it any more
+					c.Undecided(rule, fname(f), construct, "the helper is analysed in the context of its callers only and the module no longer calls it: no precondition to check the site against", s.Instr.Pos())
+					continue
+				}
+			}
 			c.Violated(rule, fname(f), construct, "no dominating guard proves this "+s.Kind+" in bounds for every input (not discharged by the compiler's prove pass nor by LinBounds)", s.Instr.Pos())
 		}
 		if d := time.Since(t0); d > time.Second {
@@ -468,4 +482,25 @@ func pinnedIn(facts []cons, prm *ssa.Parameter) (int64, bool) {
 		}
 	}
 	return 0, false
+}
+
+// inSecondPassLoop: b belongs to a loop whose header is dominated by the header of another loop that does not contain it
+func inSecondPassLoop(f *ssa.Function, b *ssa.BasicBlock) bool {
+	var headers []*ssa.BasicBlock
+	for _, h := range f.Blocks {
+		if isLoopHeader(h) {
+			headers = append(headers, h)
+		}
+	}
+	for _, h2 := range headers {
+		if !loopBlocks(h2)[b] && h2 != b {
+			continue
+		}
+		for _, h1 := range headers {
+			if h1 != h2 && h1.Dominates(h2) && !loopBlocks(h1)[h2] {
+				return true
+			}
+		}
+	}
+	return false
 }
